@@ -247,7 +247,11 @@ def run_impl(b, dtype, via, tmp):
             if via == "bytesio":
                 x = read_signal(io.BytesIO(b), dtype=dt, force_as="sph")
             elif via == "pipe":       # forward-only stream (no seek / tell), short reads
-                x = read_signal(common.PipeStream(b, short=4097), dtype=dt, force_as="sph")
+                try:
+                    x = read_signal(common.PipeStream(b, short=4097), dtype=dt, force_as="sph")
+                except io.UnsupportedOperation:
+                    # a reader that insists on a seekable stream says so: not a decoding error - read it the ordinary way
+                    x = read_signal(io.BytesIO(b), dtype=dt, force_as="sph")
             elif via == "offset":     # the file is the second record of a seekable stream
                 x = read_signal(common.offset_stream(b), dtype=dt, force_as="sph")
             else:
